@@ -38,6 +38,10 @@ Check(ev, at) ==
       [] ev.op = "destroy_many" ->
              If(ev.wrong # 0, {[p |-> <<"C12", "C01">>, at |-> at, what |-> "destroy of a live entity failed or left it reachable"]})
         \cup If(ev.len # len - ev.removed \/ ev.cap # cap, {V(at, "len()/capacity() wrong after removals")})
+      [] ev.op = "direct_distance" ->
+             If(ev.accepted_stale # 0, {[p |-> <<"C09">>, at |-> at,
+                    what |-> "a direct handle is accepted again after 2^k (really performed) removals from its archetype"]})
+        \cup If(ev.refused_fresh # 0, {[p |-> <<"C09">>, at |-> at, what |-> "a direct handle minted after the last removal is refused"]})
       [] ev.op = "probe" ->
              If(ev.listed # len, {V(at, "entities() length differs from len()")})
         \cup If(ev.wrong # 0, {[p |-> <<"C12", "C01", "C02", "C14">>, at |-> at,
